@@ -193,7 +193,7 @@ class Check:
         self.violation(name, info, found)
 
     # ------------------------------------------------------------------ lemmas (layer C) and other obligations
-    def prove(self, name, hyps, goal, tag="L", timeout_ms=30000, expect="proved"):
+    def prove(self, name, hyps, goal, tag="L", timeout_ms=30000, expect="proved", found=None):
         ob = Obligation("", tag, name, hyps, goal, 0, None)
         solve.discharge(ob, None, rlimit=solve.budget_for(self.baseline.get(self.pid, {}).get(name)))
         self.solver_seconds += ob.seconds
@@ -208,7 +208,8 @@ class Check:
         if len(self.samples) < 6 and ob.result == "proved":
             self.samples.append({"obligation": name, "goal": str(goal)[:600], "hypotheses": len(hyps)})
         if ob.result != "proved":
-            self._failed(name, ob.result, [ob], None, None, None, None)
+            fnd = found if found is not None else getattr(self, "default_found", None)
+            self._failed(name, ob.result, [ob], None, None, None, (lambda *a: fnd()) if fnd is not None else None)
         return ob
 
     def cover(self, name, formulas, timeout_ms=10000):
